@@ -88,6 +88,7 @@ type pgen struct {
 	swDepth int // nesting depth of switch statements at the point of emission
 	used    map[string]bool
 	usedList []string
+	twins    []string // names of functions that have a case twin: both get called at the end
 	theme   []string
 	curRets []string // return types of the function being generated (nil at top level)
 	inFn    bool
@@ -710,6 +711,30 @@ func (g *pgen) funcDef(globals []variable, public bool) FuncSig {
 		prefix = "F"
 	}
 	sig := FuncSig{Name: g.fresh(prefix)}
+	if g.f.AdvNames && !public && len(g.funcs) > 0 && r.Chance(25) {
+		// a twin of a function that already exists: same name, one inner letter in the other case
+		base := g.funcs[r.Intn(len(g.funcs))].Name
+		if !strings.Contains(base, ".") && len(base) > 1 {
+			b := []byte(base)
+			i := 1 + r.Intn(len(b)-1)
+			if b[i] >= 'a' && b[i] <= 'z' {
+				b[i] -= 32
+			} else if b[i] >= 'A' && b[i] <= 'Z' {
+				b[i] += 32
+			}
+			twin := string(b)
+			exists := false
+			for _, f := range g.funcs {
+				if f.Name == twin {
+					exists = true
+				}
+			}
+			if !exists && twin != base && !tshKeywords[twin] {
+				sig.Name = twin
+				g.twins = append(g.twins, base, twin)
+			}
+		}
+	}
 	if g.f.NamePool && !public {
 		pool := []string{"alpha", "beta", "gamma", "delta", "eps", "zeta"}
 		free := []string{}
@@ -838,6 +863,26 @@ func GenProgram(r *Rng, f Feat, imports []ModuleRef, tag string) (string, []Func
 			}
 		}
 	}
-	g.block(env, r.Range(1, f.MaxTop), 0, false, false, f.PublicFuncs)
+	env = g.block(env, r.Range(1, f.MaxTop), 0, false, false, f.PublicFuncs)
+	// functions with a twin are both used (unused functions never reach the converters)
+	for _, name := range g.twins {
+		for _, fn := range g.funcs {
+			if fn.Name != name {
+				continue
+			}
+			switch len(fn.Rets) {
+			case 0:
+				g.line("%s", g.callExpr(fn, env, 1))
+			default:
+				names := make([]string, len(fn.Rets))
+				for j := range names {
+					names[j] = fmt.Sprintf("tw%s%d", g.tag, g.n+j+1)
+				}
+				g.n += len(names)
+				g.line("%s := %s", strings.Join(names, ", "), g.callExpr(fn, env, 1))
+			}
+			break
+		}
+	}
 	return g.sb.String(), public
 }
